@@ -246,6 +246,10 @@ class Ctx:
     def fact(self, key):
         return self.facts.get(key)
 
+    def aliases(self):
+        """{local: variable it is a plain copy of on this path}"""
+        return {k[1:]: v for k, v in self.consts.items() if isinstance(k, str) and k.startswith("=")}
+
 
 def _eval_cmp(op, a, b):
     return {"==": a == b, "!=": a != b, "<": a < b, "<=": a <= b, ">": a > b, ">=": a >= b}.get(op)
@@ -341,6 +345,7 @@ def simulate(F, ts, init=None, max_states=200000, entry_facts=None, entry_consts
     seen = {start}
     work = deque([start])
     steps = 0
+    want_loads = bool(getattr(ts, "want_loads", False))
     while work:
         bid, st, fc, ff = work.popleft()
         steps += 1
@@ -357,7 +362,8 @@ def simulate(F, ts, init=None, max_states=200000, entry_facts=None, entry_consts
             nd = F.nodes[nid]
             k = nd.get("k")
             interesting = k in ("call", "ret", "asm", "atomic", "decl") or \
-                (k == "bin" and nd.get("asg")) or (k == "un" and nd["op"] in ("post++", "post--", "pre++", "pre--"))
+                (k == "bin" and nd.get("asg")) or (k == "un" and nd["op"] in ("post++", "post--", "pre++", "pre--")) or \
+                (k == "load" and want_loads)
             if not interesting:
                 continue
             new = set()
@@ -469,6 +475,11 @@ def simulate(F, ts, init=None, max_states=200000, entry_facts=None, entry_consts
     return len(seen)
 
 
+def _const_value(F, i, consts):
+    """Constant value of expression i under the path's constants (incl. decided ternaries)."""
+    return Ctx(F, consts, {}, None).value(i)
+
+
 def _update_env(F, nid, consts, facts):
     """Constant propagation + fact invalidation for one event."""
     nd = F.nodes[nid]
@@ -476,8 +487,16 @@ def _update_env(F, nid, consts, facts):
 
     def kill_var(v):
         consts.pop(v, None)
+        consts.pop("=" + v, None)
+        for a in [a for a, src in consts.items() if a.startswith("=") and src == v]:
+            del consts[a]
         for key in [key for key in facts if _mentions(key, v)]:
             del facts[key]
+
+    def alias(dst, src):
+        # dst is a copy of variable src on this path (src resolved to its own root)
+        if dst != src:
+            consts["=" + dst] = consts.get("=" + src, src)
 
     def kill_text(t):
         for key in [key for key in facts if t in key]:
@@ -495,12 +514,16 @@ def _update_env(F, nid, consts, facts):
             kill_var(v["n"])
             if "init" in v:
                 iv = F.nodes[F.strip(v["init"])]
+                cvv = _const_value(F, v["init"], consts) if iv.get("k") == "cond" else None
                 if "cv" in iv:
                     consts[v["n"]] = iv["cv"]
+                elif cvv is not None:
+                    consts[v["n"]] = cvv
                 elif iv.get("k") == "ref" and iv["n"] in consts:
                     consts[v["n"]] = consts[iv["n"]]
                 elif iv.get("k") == "ref" and iv.get("dk") in ("var", "param"):
                     copy_facts(v["n"], iv["n"])
+                    alias(v["n"], iv["n"])
     elif k == "bin" and nd.get("asg"):
         lh = F.strip(nd["lh"])
         ln = F.nodes[lh]
@@ -510,12 +533,16 @@ def _update_env(F, nid, consts, facts):
             kill_var(v)
             rn = F.nodes[F.strip(nd["rh"])]
             if nd["op"] == "=":
+                cvv = _const_value(F, nd["rh"], consts) if rn.get("k") == "cond" else None
                 if "cv" in rn:
                     consts[v] = rn["cv"]
+                elif cvv is not None:
+                    consts[v] = cvv
                 elif rn.get("k") == "ref" and rn["n"] in consts:
                     consts[v] = consts[rn["n"]]
                 elif rn.get("k") == "ref" and rn.get("dk") in ("var", "param") and rn["n"] != v:
                     copy_facts(v, rn["n"])
+                    alias(v, rn["n"])
             # compound updates are not propagated (loop counters would never converge)
         else:
             kill_text(F.render(lh))
